@@ -33,13 +33,14 @@ type c07Entry struct {
 }
 
 type c07Model struct {
-	e          c07Entry
-	initial    c07Entry
-	atCAS      c07Entry // state the CAS was evaluated against
-	gotGet     bool
-	gotCAS     bool
-	casOK      bool // the CAS was applied
-	casReplied bool // ... and the caller was told so
+	e             c07Entry
+	initial       c07Entry
+	atCAS         c07Entry // state the CAS was evaluated against
+	gotGet        bool
+	gotCAS        bool
+	casOK         bool // the CAS was applied
+	casReplied    bool // ... and the caller was told so
+	unconditional bool // the counter was written with a plain Put
 }
 
 var c07 *c07Model
@@ -111,6 +112,25 @@ func (m *c07Model) cas(text string, idx uint64) (bool, bool) {
 	return match, false
 }
 
+// put: an unconditional write (not what the counter should ever be advanced with: it is applied whatever
+// happened since the read).
+func (m *c07Model) put(text string) bool {
+	m.interfere()
+	m.gotCAS = true
+	m.unconditional = true
+	m.atCAS = m.e
+	if vrt.Bool("cas.fails") {
+		return true
+	}
+	n, err := strconv.ParseUint(text, 10, 32)
+	vrt.Assert(err == nil, "counter-is-written-as-a-decimal-uint32")
+	ni := vrt.Uint64("i2")
+	vrt.Assume(ni > m.e.index && ni < 1<<62)
+	m.e = c07Entry{present: true, num: uint32(n), index: ni}
+	m.casOK, m.casReplied = true, true
+	return false
+}
+
 // ---- the two ways the real ConsulSource reaches the model ------------------------------------------
 
 // (a) under the symbolic interpreter the two methods of the Consul client are replaced by these:
@@ -134,6 +154,13 @@ func c07KVCAS(k *api.KV, p *api.KVPair, q *api.WriteOptions) (bool, *api.WriteMe
 	return ok, &api.WriteMeta{}, nil
 }
 
+func c07KVPut(k *api.KV, p *api.KVPair, q *api.WriteOptions) (*api.WriteMeta, error) {
+	if c07.put(string(p.Value)) {
+		return nil, errors.New("Unexpected response code: 500")
+	}
+	return &api.WriteMeta{}, nil
+}
+
 // (b) natively (replay of a counterexample) the real Consul client talks HTTP to this server:
 func c07Server() *httptest.Server {
 	return httptest.NewServer(http.HandlerFunc(func(w http.ResponseWriter, r *http.Request) {
@@ -153,6 +180,14 @@ func c07Server() *httptest.Server {
 			}
 		case "PUT":
 			body, _ := io.ReadAll(r.Body)
+			if !r.URL.Query().Has("cas") {
+				if c07.put(string(body)) {
+					http.Error(w, "boom", 500)
+					return
+				}
+				fmt.Fprintf(w, "true")
+				return
+			}
 			idx, _ := strconv.ParseUint(r.URL.Query().Get("cas"), 10, 64)
 			ok, fail := c07.cas(string(body), idx)
 			if fail {
@@ -188,7 +223,7 @@ func c07Source() (*ConsulSource, func()) {
 // on the sequence of successful compare-and-set operations (each strictly increases the counter and
 // returns the new value); a caller dying between the two calls leaves the counter untouched.
 
-//verif:entry HarnessNextRunNumber unwind=6 conform=12 reach=success,created,refused,getfail,casfail,garbage replace=(*github.com/hashicorp/consul/api.KV).Get=>c07KVGet,(*github.com/hashicorp/consul/api.KV).CAS=>c07KVCAS
+//verif:entry HarnessNextRunNumber unwind=6 conform=12 reach=success,created,refused,getfail,casfail,garbage replace=(*github.com/hashicorp/consul/api.KV).Get=>c07KVGet,(*github.com/hashicorp/consul/api.KV).CAS=>c07KVCAS,(*github.com/hashicorp/consul/api.KV).Put=>c07KVPut
 func HarnessNextRunNumber() {
 	c07 = c07New()
 	cc, closeFn := c07Source()
@@ -201,6 +236,7 @@ func HarnessNextRunNumber() {
 		vrt.Assert(m.e.num >= m.initial.num, "counter-never-decreases")
 	}
 	vrt.Assert(m.e.index >= m.initial.index, "modify-index-never-decreases")
+	vrt.Assert(!m.unconditional, "counter-is-only-advanced-by-compare-and-set")
 	if err == nil {
 		vrt.Assert(m.gotCAS && m.casOK && m.casReplied, "success-only-after-an-applied-compare-and-set")
 		vrt.Assert(m.e.present && m.e.num == r, "returned-number-is-what-the-counter-now-holds")
